@@ -23,7 +23,8 @@ Plain == {"p2wpkh", "p2sh-p2wpkh", "witv1", "witv0bad", "p2sh19", "p2sh-witv1",
 \* fad2p75 / fad2p76: fad2 with the embedded signature padded (lax DER) to exactly 75 / 76 bytes: the push-size boundary
 \* of the pattern FindAndDelete looks for (largest direct push / smallest OP_PUSHDATA1 push)
 TwoCheck == {"fad2", "fad2r", "codesep2", "fad2p75", "fad2p76"}
-Leaves == IF Tier = "quick" THEN {"true", "p2pk", "p2pkh", "multisig", "big", "ifnm"} \cup TwoCheck
+\* (p2pku: an uncompressed key - WITNESS_PUBKEYTYPE binds it inside witness programs only)
+Leaves == IF Tier = "quick" THEN {"true", "p2pk", "p2pku", "p2pkh", "multisig", "big", "ifnm"} \cup TwoCheck
           ELSE {"true", "false", "p2pk", "p2pku", "p2pkh", "multisig", "multisig2of3", "big", "big10001", "ifnm", "cltv"} \cup TwoCheck
 SigKinds == {"canon", "nop", "extra", "pd1", "badsig"}
 WitKinds == {"canon", "empty", "extra", "big", "wrongscript", "unexpected"}
